@@ -974,11 +974,21 @@ class Runner:
         if use_gcc:
             cpath = os.path.join(self.dir, "g.c")
             opath = os.path.join(self.dir, "g.o")
-            open(cpath, "w").write(text.replace(PRELUDE, PRELUDE + PRELUDE_DEFS.replace("int gi", "int gi")
-                                                .replace("\n", " ") + "void gf(void){} void gf2(void){}\n"))
+            open(cpath, "w").write(text.replace(PRELUDE, PRELUDE + PRELUDE_DEFS.replace("\n", " ") +
+                                                "void gf(void){} void gf2(void){}\n")
+                                   .replace("\nstatic ", "\n__attribute__((used)) static "))
             g = common.sh(["gcc", "-c", "-w", "-O0", "-fno-common", "-fno-pic", "-o", opath, cpath])
             if g.returncode != 0:
-                raise Broken("gcc rejects a generated unit: %s\n%s" % (g.stdout[-800:], text))
+                if len(objs) > 1:
+                    for o in objs:
+                        self.check_batch([o], targ, use_gcc)
+                    return
+                # gcc 12 rejects some valid re-initialisations of an elided sub-aggregate holding a
+                # string ("array of inappropriate type initialized from string constant"); clang decides
+                g2 = common.sh(["clang-14", "-c", "-w", "-O0", "-fno-common", "-fno-pic", "-o", opath, cpath])
+                if g2.returncode != 0:
+                    raise Broken("gcc and clang reject a generated unit: %s\n%s\n%s" % (g.stdout[-800:], g2.stdout[-500:], text))
+                self.counts["gcc_rejected_clang_used"] = self.counts.get("gcc_rejected_clang_used", 0) + 1
             gcc = GccObj(opath, self.dir)
         for o in objs:
             self.check_object(o, targ, tg, datas, gcc, exp, text)
